@@ -336,6 +336,19 @@ public:
 
         const Poly &s = down_cast<const Poly &>(o);
 
+        // constants are equal whatever their variables are (see __eq__);
+        // they are ordered by their value, before all other polynomials
+        if (is_constant() || s.is_constant()) {
+            if (not(is_constant() && s.is_constant()))
+                return is_constant() ? -1 : 1;
+            if (poly_.dict_.size() != s.poly_.dict_.size())
+                return poly_.dict_.size() < s.poly_.dict_.size() ? -1 : 1;
+            if (poly_.dict_.empty())
+                return 0;
+            return unified_compare(poly_.dict_.begin()->second,
+                                   s.poly_.dict_.begin()->second);
+        }
+
         if (vars_.size() != s.vars_.size())
             return vars_.size() < s.vars_.size() ? -1 : 1;
         if (poly_.dict_.size() != s.poly_.dict_.size())
